@@ -53,3 +53,11 @@ double fracrevbits(uint32_t i) {
 uint64_t ceilto64b(uint64_t size) { return (size + UINT64_C(63)) & (UINT64_C(-64)); }
 
 uint64_t ceilto32b(uint64_t size) { return (size + UINT64_C(31)) & (UINT64_C(-32)); }
+
+#if defined(SPQLIOS_VERIF) && defined(__x86_64__)
+int (*spqlios_verif_cpu_hook)(const char* feature, int detected) = 0;
+EXPORT int spqlios_verif_cpu_supports(const char* feature, int detected) {
+  if (spqlios_verif_cpu_hook) return spqlios_verif_cpu_hook(feature, detected);
+  return detected;
+}
+#endif
